@@ -4,9 +4,11 @@
     Reading guide (see also Properties/C15.v). [entry ups clock xp wp mp prog]
     is the entry sequence [prog] — ANY program (rules, matchers, accept /
     reject / return / jump / goto, nested to any depth) over ANY tables of the
-    modelled plugins: cache, redirect, ecs_handler, forward_edns0opt ([wp]),
-    hosts, black_hole, arbitrary, ttl, forward, drop_resp ([xp]) and read-only
-    matchers ([mp]) — run on the fresh context [new_context q udp ca] and the
+    modelled plugins: cache, redirect, ecs_handler, forward_edns0opt, the
+    dual-stack selector ([wp]), hosts, black_hole, arbitrary, ttl, forward,
+    drop_resp, fallback over two sub-programs ([xp]; [depth] bounds how deep
+    fallbacks nest, the theorems hold for every bound) and read-only matchers
+    ([mp]) — run on the fresh context [new_context q udp ca] and the
     plugin state [w]; it yields the context [c], the new plugin state and the
     error [err] of Entry.Exec. [reply_msg truncate c err] is the message Handle
     then hands to the pack function, [handle ...] all of Handle.
@@ -18,7 +20,13 @@
     Qtype/Qclass are 16 bit ([wf_question]); miekg's Truncate and the pack
     function are known through their contracts only.
 
-    Not covered by the model: fallback, dual_selector, lazy cache refresh. *)
+    fallback and dual_selector run sub-chains on copies of the context in
+    other goroutines; the model sequences them and leaves their timers out
+    (fallback's threshold does not expire, dual_selector's reference query
+    answers within its grace period): which copy is adopted is then a function
+    of the sub-results, and the theorems hold for it whatever they are.
+
+    Not covered by the model: lazy cache refresh. *)
 From Verif Require Import Base.Prelude Gen.Constants.
 From Verif Require Import Model.Msg Model.Handler Model.Sequence Model.Plugins Proofs.Handler.
 From Verif Require Model.CacheKey Proofs.CacheKey.
@@ -28,10 +36,10 @@ Open Scope N_scope.
 (** Malformed queries (QR set, not exactly one question, answer or authority
     records, more than one additional record) get no DNS reply, whatever the
     program; the plugins are not even run. *)
-Theorem malformed_dropped ups clock xp wp mp truncate packs prog w q udp ca :
+Theorem malformed_dropped ups clock xp wp mp truncate packs depth prog w q udp ca :
   m_qr q = true \/ length (m_question q) <> 1%nat \/ m_answer q <> [] \/ m_ns q <> [] \/ (1 < length (m_extra q))%nat ->
-  handle truncate packs (entry ups clock xp wp mp prog) w q udp ca = (w, None).
-Proof. exact (malformed_dropped ups clock xp wp mp truncate packs prog w q udp ca). Qed.
+  handle truncate packs (entry ups clock xp wp mp depth prog) w q udp ca = (w, None).
+Proof. exact (malformed_dropped ups clock xp wp mp truncate packs depth prog w q udp ca). Qed.
 Print Assumptions malformed_dropped.
 
 (** Every well-formed query receives exactly one reply, and it carries the
@@ -39,93 +47,93 @@ Print Assumptions malformed_dropped.
     set — for EVERY program over the modelled plugins. The reply exists when
     the outcome's rcode is 0..15 or the client sent an OPT (an extended rcode
     cannot be packed otherwise) and the message fits 65535 bytes. *)
-Theorem reply_exactly_one_id_question ups clock xp wp mp truncate packs plen prog w q udp ca qu c w' err :
+Theorem reply_exactly_one_id_question ups clock xp wp mp truncate packs plen depth prog w q udp ca qu c w' err :
   (forall u q r, ups u q = Some r -> m_id r = m_id q /\ m_question r = m_question q /\ m_qr r = true) ->
   (forall size m, trunc_rel m (truncate size m) = true) ->
   (forall m, (m_rcode m < 16 \/ opts_of (m_extra m) <> []) -> plen m <= 65535 -> packs m = true) ->
   valid_query q = true -> m_question q = [qu] -> CacheKey.wf_question qu -> store_ok w ->
-  entry ups clock xp wp mp prog (new_context q udp ca, w) = ((c, w'), err) ->
+  entry ups clock xp wp mp depth prog (new_context q udp ca, w) = ((c, w'), err) ->
   (m_rcode (base_reply c err) < 16 \/ find_opt (m_extra q) <> None) ->
   plen (reply_msg truncate c err) <= 65535 ->
-  exists r, handle truncate packs (entry ups clock xp wp mp prog) w q udp ca = (w', Some r)
+  exists r, handle truncate packs (entry ups clock xp wp mp depth prog) w q udp ca = (w', Some r)
             /\ r = reply_msg truncate c err
             /\ m_id r = m_id q /\ m_question r = m_question q /\ m_qr r = true /\ m_ra r = true
             /\ store_ok w'.
 Proof.
-  exact (fun H1 H2 H3 => reply_exactly_one_id_question ups clock xp wp mp truncate packs plen H1 H2 H3
+  exact (fun H1 H2 H3 => reply_exactly_one_id_question ups clock xp wp mp truncate packs depth plen H1 H2 H3
                            prog w q udp ca qu c w' err).
 Qed.
 Print Assumptions reply_exactly_one_id_question.
 
 (** SERVFAIL if the plugin chain returned an error: that rcode and no record
     besides the response OPT. *)
-Theorem servfail_on_error ups clock xp wp mp truncate prog w q udp ca qu c w' e :
+Theorem servfail_on_error ups clock xp wp mp truncate depth prog w q udp ca qu c w' e :
   (forall u q r, ups u q = Some r -> m_id r = m_id q /\ m_question r = m_question q /\ m_qr r = true) ->
   (forall size m, trunc_rel m (truncate size m) = true) ->
   valid_query q = true -> m_question q = [qu] -> CacheKey.wf_question qu -> store_ok w ->
-  entry ups clock xp wp mp prog (new_context q udp ca, w) = ((c, w'), Some e) ->
+  entry ups clock xp wp mp depth prog (new_context q udp ca, w) = ((c, w'), Some e) ->
   let r := reply_msg truncate c (Some e) in
   m_rcode r = rcode_servfail /\ m_answer r = [] /\ m_ns r = []
   /\ m_extra r = match c_resp_opt c with Some o => [OPT o] | None => [] end.
-Proof. exact (fun H1 H2 => servfail_on_error ups clock xp wp mp truncate H1 H2 prog w q udp ca qu c w' e). Qed.
+Proof. exact (fun H1 H2 => servfail_on_error ups clock xp wp mp truncate depth H1 H2 prog w q udp ca qu c w' e). Qed.
 Print Assumptions servfail_on_error.
 
 (** REFUSED if it produced no answer. *)
-Theorem refused_on_no_answer ups clock xp wp mp truncate prog w q udp ca qu c w' :
+Theorem refused_on_no_answer ups clock xp wp mp truncate depth prog w q udp ca qu c w' :
   (forall u q r, ups u q = Some r -> m_id r = m_id q /\ m_question r = m_question q /\ m_qr r = true) ->
   (forall size m, trunc_rel m (truncate size m) = true) ->
   valid_query q = true -> m_question q = [qu] -> CacheKey.wf_question qu -> store_ok w ->
-  entry ups clock xp wp mp prog (new_context q udp ca, w) = ((c, w'), None) -> c_resp c = None ->
+  entry ups clock xp wp mp depth prog (new_context q udp ca, w) = ((c, w'), None) -> c_resp c = None ->
   let r := reply_msg truncate c None in
   m_rcode r = Msg.rcode_refused /\ m_answer r = [] /\ m_ns r = []
   /\ m_extra r = match c_resp_opt c with Some o => [OPT o] | None => [] end.
-Proof. exact (fun H1 H2 => refused_on_no_answer ups clock xp wp mp truncate H1 H2 prog w q udp ca qu c w'). Qed.
+Proof. exact (fun H1 H2 => refused_on_no_answer ups clock xp wp mp truncate depth H1 H2 prog w q udp ca qu c w'). Qed.
 Print Assumptions refused_on_no_answer.
 
 (** Otherwise the plugins' answer [a]: RA forced and the response OPT appended
     ([finish_reply c a]), sent as is over TCP; over UDP any truncation of it
     that the contract of Msg.Truncate allows (header, rcode and question kept,
     a prefix of each section, OPT kept, TC = TC || dropped). *)
-Theorem answer_is_plugins_answer ups clock xp wp mp truncate prog w q udp ca qu c w' a :
+Theorem answer_is_plugins_answer ups clock xp wp mp truncate depth prog w q udp ca qu c w' a :
   (forall u q r, ups u q = Some r -> m_id r = m_id q /\ m_question r = m_question q /\ m_qr r = true) ->
   (forall size m, trunc_rel m (truncate size m) = true) ->
   valid_query q = true -> m_question q = [qu] -> CacheKey.wf_question qu -> store_ok w ->
-  entry ups clock xp wp mp prog (new_context q udp ca, w) = ((c, w'), None) -> c_resp c = Some a ->
+  entry ups clock xp wp mp depth prog (new_context q udp ca, w) = ((c, w'), None) -> c_resp c = Some a ->
   let r := reply_msg truncate c None in
   let full := finish_reply c a in
   m_rcode r = m_rcode a /\ m_opcode r = m_opcode a
   /\ trunc_rel full r = true /\ (udp = false -> r = full)
   /\ m_answer full = m_answer a /\ m_ns full = m_ns a
   /\ m_extra full = m_extra a ++ match c_resp_opt c with Some o => [OPT o] | None => [] end.
-Proof. exact (fun H1 H2 => answer_is_plugins_answer ups clock xp wp mp truncate H1 H2 prog w q udp ca qu c w' a). Qed.
+Proof. exact (fun H1 H2 => answer_is_plugins_answer ups clock xp wp mp truncate depth H1 H2 prog w q udp ca qu c w' a). Qed.
 Print Assumptions answer_is_plugins_answer.
 
 (** Over UDP the reply never exceeds max(512, the client's advertised EDNS size) bytes. *)
-Theorem udp_size_bound ups clock xp wp mp truncate plen prog w q ca c w' err :
+Theorem udp_size_bound ups clock xp wp mp truncate plen depth prog w q ca c w' err :
   (forall size m, plen (truncate size m) <= N.max 512 size) ->
-  entry ups clock xp wp mp prog (new_context q true ca, w) = ((c, w'), err) ->
+  entry ups clock xp wp mp depth prog (new_context q true ca, w) = ((c, w'), err) ->
   plen (reply_msg truncate c err) <= N.max 512 (advertised q).
-Proof. exact (fun H => udp_size_bound ups clock xp wp mp truncate plen H prog w q ca c w' err). Qed.
+Proof. exact (fun H => udp_size_bound ups clock xp wp mp truncate depth plen H prog w q ca c w' err). Qed.
 Print Assumptions udp_size_bound.
 
 (** ... and sets TC when records were dropped to fit (and otherwise leaves TC as it was). *)
-Theorem tc_iff_dropped ups clock xp wp mp truncate prog w q udp ca qu c w' err :
+Theorem tc_iff_dropped ups clock xp wp mp truncate depth prog w q udp ca qu c w' err :
   (forall u q r, ups u q = Some r -> m_id r = m_id q /\ m_question r = m_question q /\ m_qr r = true) ->
   (forall size m, trunc_rel m (truncate size m) = true) ->
   valid_query q = true -> m_question q = [qu] -> CacheKey.wf_question qu -> store_ok w ->
-  entry ups clock xp wp mp prog (new_context q udp ca, w) = ((c, w'), err) ->
+  entry ups clock xp wp mp depth prog (new_context q udp ca, w) = ((c, w'), err) ->
   let r := reply_msg truncate c err in
   m_tc r = (m_tc (base_reply c err) || dropped (finish_reply c (base_reply c err)) r).
-Proof. exact (fun H1 H2 => tc_iff_dropped ups clock xp wp mp truncate H1 H2 prog w q udp ca qu c w' err). Qed.
+Proof. exact (fun H1 H2 => tc_iff_dropped ups clock xp wp mp truncate depth H1 H2 prog w q udp ca qu c w' err). Qed.
 Print Assumptions tc_iff_dropped.
 
 (** The cache consistency the theorems start from holds for the empty cache and
     survives every query, so they apply to every query of any sequence. *)
-Theorem store_ok_preserved ups clock xp wp mp truncate packs prog w q udp ca qu :
+Theorem store_ok_preserved ups clock xp wp mp truncate packs depth prog w q udp ca qu :
   (forall u q r, ups u q = Some r -> m_id r = m_id q /\ m_question r = m_question q /\ m_qr r = true) ->
   valid_query q = true -> m_question q = [qu] -> CacheKey.wf_question qu -> store_ok w ->
-  store_ok (fst (handle truncate packs (entry ups clock xp wp mp prog) w q udp ca)).
-Proof. exact (fun H => store_ok_preserved ups clock xp wp mp truncate packs H prog w q udp ca qu). Qed.
+  store_ok (fst (handle truncate packs (entry ups clock xp wp mp depth prog) w q udp ca)).
+Proof. exact (fun H => store_ok_preserved ups clock xp wp mp truncate packs depth H prog w q udp ca qu). Qed.
 Print Assumptions store_ok_preserved.
 
 Theorem store_ok_empty : store_ok empty_world.
@@ -153,7 +161,7 @@ Definition prog1 : rules :=
 Definition qa1 : msg := Judge.C15.mk 8 256 0 [Judge.C15.Q Judge.C15.n0 1 1] [] [] [].
 Definition qb1 : msg := Judge.C15.mk 9 256 0 [Judge.C15.Q Judge.C15.n1 1 1] [] [] [].
 Definition run1 := handle (fun _ m => m) (fun _ => true)
-                          (entry up1 (fun _ => Some 0) xp1 wp1 (fun _ => MHasResp) prog1).
+                          (entry up1 (fun _ => Some 0) xp1 wp1 (fun _ => MHasResp) 1 prog1).
 
 Example c03_nonvacuous :
   let '(w1, r1) := run1 empty_world qa1 false None in
@@ -168,12 +176,12 @@ Proof. vm_compute. split; reflexivity. Qed.
 Example c03_theorem_applies :
   exists w' r, run1 empty_world qa1 false None = (w', Some r) /\ m_id r = 8 /\ m_question r = m_question qa1.
 Proof.
-  pose (s := entry up1 (fun _ => Some 0) xp1 wp1 (fun _ => MHasResp) prog1 (new_context qa1 false None, empty_world)).
+  pose (s := entry up1 (fun _ => Some 0) xp1 wp1 (fun _ => MHasResp) 1 prog1 (new_context qa1 false None, empty_world)).
   assert (Hrc : m_rcode (base_reply (fst (fst s)) (snd s)) = 0) by (vm_compute; reflexivity).
   destruct s as [[c w'] err] eqn:He. cbn [fst snd] in Hrc.
   assert (Hlt : m_rcode (base_reply c err) < 16) by (rewrite Hrc; reflexivity).
   destruct (reply_exactly_one_id_question up1 (fun _ => Some 0) xp1 wp1 (fun _ => MHasResp) (fun _ m => m)
-              (fun _ => true) (fun _ => 0) prog1 empty_world qa1 false None (Judge.C15.Q Judge.C15.n0 1 1) c w' err
+              (fun _ => true) (fun _ => 0) 1%nat prog1 empty_world qa1 false None (Judge.C15.Q Judge.C15.n0 1 1) c w' err
               up1_echo (fun size m => trunc_rel_refl m) (fun _ _ _ => eq_refl) eq_refl eq_refl
               (conj eq_refl eq_refl) store_ok_empty He (or_introl Hlt) (N.le_0_l _))
     as (r & H1 & _ & H3 & H4 & _).
@@ -187,3 +195,34 @@ Example c03_truncation_example :
   let cut := Judge.C15.mk 1 33664 0 [Judge.C15.Q Judge.C15.n0 16 1] [Judge.C15.R Judge.C15.n0 16 1 300 1] [] [] in
   trunc_rel full cut = true /\ dropped full cut = true /\ m_tc cut = true.
 Proof. vm_compute. repeat split. Qed.
+
+(** fallback and the dual-stack selector: [cache; prefer_ipv4; fallback (forward u0 | hosts)]:
+    the AAAA query for a name without A is answered by the primary, with its
+    own id and question; with a failing primary the secondary's answer is used. *)
+Definition up3 (u : N) (q : msg) : option msg :=
+  if u =? 0 then
+    match m_question q with
+    | qu :: _ => if qtype qu =? 28
+                 then Some (with_answer (with_question (set_reply q) (m_question q)) [Judge.C15.R [] 28 1 300 9])
+                 else Some (with_question (set_reply q) (m_question q))
+    | [] => None
+    end
+  else None.
+Definition sub_p (u : N) : rules := RCons (Rule [] (Exec u)) RNil.
+Definition xp3 (i : N) : xplugin :=
+  nth (N.to_nat i) [XForward 0; XForward 1; XBlackHole [] [77];
+                    XFallback (sub_p 0) (sub_p 2) false; XFallback (sub_p 1) (sub_p 2) true] XDropResp.
+Definition wp3 (i : N) : wplugin := nth (N.to_nat i) [WCache 0; WDual 0 false] (WCache 0).
+Definition prog3 (fb : N) : rules :=
+  RCons (Rule [] (Wrap 0)) (RCons (Rule [] (Wrap 1)) (RCons (Rule [] (Exec fb)) RNil)).
+Definition q3 : msg := Judge.C15.mk 11 256 0 [Judge.C15.Q Judge.C15.n3 28 1] [] [] [].
+
+Example c03_fallback_dual_nonvacuous :
+  let run fb := snd (handle (fun _ m => m) (fun _ => true)
+                            (entry up3 (fun _ => Some 0) xp3 wp3 (fun _ => MHasResp) 2 (prog3 fb))
+                            empty_world q3 true None) in
+  option_map (fun r => (m_id r, m_question r, m_qr r, m_ra r, m_answer r)) (run 3)
+    = Some (11, [Judge.C15.Q Judge.C15.n3 28 1], true, true, [Judge.C15.R [] 28 1 300 9])
+  /\ option_map (fun r => (m_id r, m_question r, m_qr r, m_ra r, m_answer r)) (run 4)
+    = Some (11, [Judge.C15.Q Judge.C15.n3 28 1], true, true, [Judge.C15.R Judge.C15.n3 28 1 300 77]).
+Proof. split; vm_compute; reflexivity. Qed.
